@@ -318,8 +318,9 @@ def maintained_derived(prog: Program, cname: str):
             continue
         F = next(iter(fs))
         ins = {n[2] for n in walk(F) if n[0] == "f" and n[1] == SELF and n[2] != d}
-        pure = all(n[0] in ("f", "c", "nary", "bin", "un", "self") or not isinstance(n[0], str) for n in walk(F))
-        if ins and pure and F[0] in ("nary", "bin"):
+        pure = all(n[0] in ("f", "c", "nary", "bin", "un", "self") or not isinstance(n[0], str) or
+                   (n[0] == "call" and n[1][0] == "ext" and n[1][1] == "math") or (n[0] == "ext" and n[1] == "math") for n in walk(F))
+        if ins and pure and F[0] in ("nary", "bin", "call"):
             derived[d] = F
     stale = {}
     for d, F in derived.items():
@@ -342,3 +343,41 @@ def expand_derived(prog: Program, cname: str, v):
     derived, stale = maintained_derived(prog, cname)
     ok = {d: F for d, F in derived.items() if d not in stale}
     return mapx(strip_epochs(v), lambda n: ok.get(n[2]) if (n[0] == "f" and n[1] == SELF and n[2] in ok) else None)
+
+
+LAZY_ITERATORS = {("g", "map"), ("g", "zip"), ("g", "filter"), ("g", "iter"), ("g", "reversed"), ("g", "enumerate")}
+
+
+def _is_lazy_iterator(v) -> bool:
+    return (v[0] == "call" and v[1] in LAZY_ITERATORS) or (v[0] == "comp" and v[1] == "gen") or v[0] == "iterunp"
+
+
+def iterator_reuse(p: State):
+    """[(event, iterator value)]: a one-shot iterator (map / zip / filter / iter / generator expression) bound to a name outside a loop
+    and consumed - walked by a `for`, or handed to a call other than next() - inside that loop: the first round exhausts it and
+    every later round sees nothing."""
+    out = []
+    made = []  # (value, loops at the binding)
+    for e in p.events:
+        if e.kind == "bind" and e.d.get("value") is not None:
+            v = strip_epochs(e.value)
+            alts = [v[2], v[3]] if v[0] == "phi" else [v]
+            for a in alts:
+                if _is_lazy_iterator(a):
+                    made.append((a, tuple(e.loops)))
+        used = []
+        if e.kind == "call" and e.name != "next":
+            for a in list(e.args) + [v_ for v_ in (e.kwargs or {}).values()]:
+                a = strip_epochs(a)
+                used += [a[2], a[3]] if a[0] == "phi" else [a]
+            here = tuple(e.loops)
+        elif e.kind == "bind" and e.d.get("value") is not None and strip_epochs(e.value)[0] == "it":
+            d = strip_epochs(e.value)[2]
+            used += [d[2], d[3]] if d[0] == "phi" else [d]
+            here = tuple(e.loops)[:-1]  # the consuming loop itself does not count
+        else:
+            continue
+        for (v, lp) in made:
+            if v in used and len(here) > len(lp) and here[:len(lp)] == lp:
+                out.append((e, v))
+    return out
